@@ -512,4 +512,20 @@ func init() {
 		Old:    "\t\treturn q.Mode\n\t}\n\n\tleftUsedLabel := copyMap(usedLabels)\n\tleftMode := q.Left.inferModality(labelledTypesEnv, leftUsedLabel)\n\trightMode := q.Right.inferModality(labelledTypesEnv, usedLabels)\n\n\tcommonMode := commonMode(leftMode, rightMode)\n\n\t// _, unset = commonMode.(*UnsetMode)\n\t// if !unset {\n\t// \t// If the common mode is defined/set, return it\n\t// \treturn commonMode\n\t// }\n\n\treturn commonMode\n}\n\nfunc (q *ReceiveType)",
 		New:    "\t\treturn q.Mode\n\t}\n\n\tleftUsedLabel := copyMap(usedLabels)\n\tleftMode := q.Right.inferModality(labelledTypesEnv, leftUsedLabel)\n\trightMode := q.Right.inferModality(labelledTypesEnv, usedLabels)\n\n\tcommonMode := commonMode(leftMode, rightMode)\n\n\treturn commonMode\n}\n\nfunc (q *ReceiveType)",
 		Expect: "ReceiveType/SendType | sibling:inferModality"})
+	addFixture(Fixture{Name: "selection-hands-over-self", Rule: "R-SELF-TOLERANT-CONSUME", File: "process/typechecker.go",
+		Old:    "\t\t\tfoundContinuationType, errorContinuationType := consumeName(p.continuation_c, gammaNameTypesCtx)",
+		New:    "\t\t\tfoundContinuationType, errorContinuationType := consumeNameMaybeSelf(p.continuation_c, providerShadowName, gammaNameTypesCtx, providerType)",
+		Expect: "(*process.SelectForm).typecheckForm | self-tolerant-consume"})
+	addFixture(Fixture{Name: "annotation-decides-polarity-in-typed-runs", Rule: "R-POLARITY-SOURCE", File: "process/name.go",
+		Old:    "\t// Fetch the polarity either directly from the type, or the user inputted polarity\n\tif fromTypes {",
+		New:    "\tif n.ExplicitPolarity != nil {\n\t\treturn *n.ExplicitPolarity\n\t}\n\tif fromTypes {",
+		Expect: "(*process.Name).Polarity | return"})
+	addFixture(Fixture{Name: "watchdog-rearmed-with-a-shorter-silence", Rule: "R-WATCHDOG-ARMED", File: "process/runtime.go",
+		Old:    "\t\t\tt.Reset(fullTimeout)",
+		New:    "\t\t\tt.Reset(timeout)",
+		Expect: "HeartbeatReceiver | one-watchdog-duration"})
+	addFixture(Fixture{Name: "independence-skips-the-first-parameter", Rule: "R-INDEPENDENCE", File: "process/typechecker.go",
+		Old:    "\t\tantecedents := f.Parameters\n",
+		New:    "\t\tantecedents := f.Parameters\n\t\tif f.UsesExplicitProvider && len(antecedents) > 0 {\n\t\t\tantecedents = antecedents[1:]\n\t\t}\n",
+		Expect: "root-site:declared-FunctionDefinition"})
 }
